@@ -4,7 +4,7 @@ Every family is an explicit product over a small feature grid; the reference int
 member and members it refuses are dropped (their number is reported). `quick` selects a fixed sub-list
 covering each feature, `thorough` takes the whole product.
 """
-import itertools
+import itertools, os
 from ptgir import Prog, Cls, Flow, Invalid
 
 
@@ -15,6 +15,9 @@ def NV(*ns):
 def valid(progs):
     """Drop programs / variants the reference interpreter refuses. -> (kept, n_refused_variants)"""
     out, refused = [], 0
+    only = os.environ.get('VERIF_PTG_ONLY')          # debugging aid: restrict every family to the named programs
+    if only:
+        progs = [p for p in progs if p.name in only.split(',')]
     for p in progs:
         ok = []
         for v in p.variants:
@@ -184,10 +187,12 @@ def dep_progs(props=None, sfx=''):
         Cls('SA(z)', ['z = 0 .. 0'], 'A(0)', [Flow('READ X', ['A(0)'], ['X SB(1 .. 2*N-1 .. 2)'])], **k),
         Cls('SB(k)', ['k = 1 .. 2*N-1 .. 2', 'h = k / 2'], 'A(k)', [Flow('READ X', ['X SA(0)']), Flow('RW Y', ['A(k)'], ['Y SC(h)'])], **k),
         Cls('SC(h)', ['h = 0 .. N-1'], 'A(2*h+1)', [Flow('RW Y', ['Y SB(2*h+1)'], ['A(2*h+1)'])], **k)], tags=['stride']))
-    # a producer with two written flows whose flow indices differ from the consumers' flow indices
-    P.append(Prog('twoout' + sfx, {'A': 'N', 'B': 'N'}, ['N'], NV(1, 2, 3), [
+    # a producer with two written flows whose flow indices differ from the consumers' flow indices; C1 has a second
+    # task input so that, depending on the order, Y1 is fetched through the repo lookup or through the release shortcut
+    P.append(Prog('twoout' + sfx, {'A': 'N', 'B': 'N', 'C': 'N'}, ['N'], NV(1, 2, 3), [
         Cls('PP(k)', ['k = 0 .. N-1'], 'A(k)', [Flow('RW X', ['A(k)'], ['X2 C2(k)']), Flow('RW Y', ['B(k)'], ['Y1 C1(k)'])], **k),
-        Cls('C1(k)', ['k = 0 .. N-1'], 'B(k)', [Flow('RW Y1', ['Y PP(k)'], ['B(k)'])], **k),
+        Cls('QQ(k)', ['k = 0 .. N-1'], 'C(k)', [Flow('RW Z', ['C(k)'], ['Z C1(k)'])], **k),
+        Cls('C1(k)', ['k = 0 .. N-1'], 'B(k)', [Flow('RW Y1', ['Y PP(k)'], ['B(k)']), Flow('READ Z', ['Z QQ(k)'])], **k),
         Cls('C2(k)', ['k = 0 .. N-1'], 'A(k)', [Flow('CTL G', [], []), Flow('RW X2', ['X PP(k)'], ['A(k)'])], **k)], tags=['twoout']))
     return P
 
@@ -216,7 +221,7 @@ def c01_family(tier):
                 'chain', 'fanout', 'wnew']
         progs = [p for p in progs if p.name in want]
         missing = set(want) - set(p.name for p in progs)
-        assert not missing, missing
+        assert not missing or os.environ.get('VERIF_PTG_ONLY'), missing
     return progs, refused
 
 
@@ -241,7 +246,7 @@ def c02_family(tier):
                 'twoout', 'route_cnt', 'inin_cnt', 'wave_cnt', 'su_tmtf_ttmo', 'su_btmo_tmtn', 'su_newf_ctlo']
         progs = [p for p in progs if p.name in want]
         missing = set(want) - set(p.name for p in progs)
-        assert not missing, missing
+        assert not missing or os.environ.get('VERIF_PTG_ONLY'), missing
     return progs, refused
 
 
